@@ -48,10 +48,11 @@ End Diamond.
 (* ---------- the network satisfies the hypotheses ---------- *)
 Section NetP.
   Variables (L M : Type).
+  Variable cap : option nat.
   Notation net := (net L M).
   Notation proc := (proc L M).
 
-  Lemma step_det (s : net) i t t' : step L M s i t -> step L M s i t' -> t = t'.
+  Lemma step_det (s : net) i t t' : step L M cap s i t -> step L M cap s i t' -> t = t'.
   Proof. unfold step. intros H1 H2. rewrite H1 in H2. inversion H2. reflexivity. Qed.
 
   Lemma nth_updp_same (ps : list proc) : forall i p, i < length ps -> nth_error (updp L M ps i p) i = Some p.
@@ -99,6 +100,7 @@ End NetP.
 
 Section NetDiamond.
   Variables (L M : Type).
+  Variable cap : option nat.
   Notation net := (net L M).
 
   Ltac inv H := inversion H; subst; clear H.
@@ -117,8 +119,11 @@ Section NetDiamond.
   Ltac fin Hne := eexists; split; [reflexivity|];
     apply f_equal; apply f_equal2; [symmetry; apply updp_comm; exact Hne | try reflexivity; try qsolve].
 
-  Theorem net_diamond (s : net) i1 i2 t1 t2 : i1 <> i2 -> step L M s i1 t1 -> step L M s i2 t2 ->
-    exists u, step L M t1 i2 u /\ step L M t2 i1 u.
+  Lemma room_tl (m : M) rest : room M cap (m :: rest) = true -> room M cap rest = true.
+  Proof. unfold room. destruct cap as [c|]; [|reflexivity]. simpl. intros H. apply Nat.ltb_lt in H. apply Nat.ltb_lt. lia. Qed.
+
+  Theorem net_diamond (s : net) i1 i2 t1 t2 : i1 <> i2 -> step L M cap s i1 t1 -> step L M cap s i2 t2 ->
+    exists u, step L M cap t1 i2 u /\ step L M cap t2 i1 u.
   Proof.
     unfold step, fire. intros Hne H1 H2.
     destruct (nth_error (procs s) i1) as [p1|] eqn:E1; [|discriminate].
@@ -129,36 +134,42 @@ Section NetDiamond.
     assert (N21 : forall p, nth_error (updp L M (procs s) i2 p) i1 = Some p1) by (intros; rewrite nth_updp_other by (intro; apply Hne; auto); exact E1).
     destruct a1 as [f1|j1 g1|j1 h1], a2 as [f2|j2 g2|j2 h2].
     - inv H1. inv H2. simpl. rewrite N12, N21, P1, P2. fin Hne.
-    - inv H1. inv H2. simpl. rewrite N12, N21, P1, P2. fin Hne.
+    - destruct (room M cap (qs s i2 j2)) eqn:R2; [|discriminate].
+      inv H1. inv H2. simpl. rewrite N12, N21, P1, P2, R2. fin Hne.
     - destruct (qs s j2 i2) as [|m rest] eqn:Q2; [discriminate|].
       inv H1. inv H2. simpl. rewrite N12, N21, P1, P2, Q2. fin Hne.
-    - inv H1. inv H2. simpl. rewrite N12, N21, P1, P2. fin Hne.
+    - destruct (room M cap (qs s i1 j1)) eqn:R1; [|discriminate].
+      inv H1. inv H2. simpl. rewrite N12, N21, P1, P2, R1. fin Hne.
     - (* send, send: different source, hence different queues *)
+      destruct (room M cap (qs s i1 j1)) eqn:R1; [|discriminate].
+      destruct (room M cap (qs s i2 j2)) eqn:R2; [|discriminate].
       inv H1. inv H2. simpl. rewrite N12, N21, P1, P2.
       rewrite (updq_other M (qs s) i1 j1 _ i2 j2) by (apply pair_neq_l; auto).
       rewrite (updq_other M (qs s) i2 j2 _ i1 j1) by (apply pair_neq_l; auto).
-      fin Hne.
+      rewrite R1, R2. fin Hne.
     - (* send by i1 to j1, recv by i2 from j2 *)
+      destruct (room M cap (qs s i1 j1)) eqn:R1; [|discriminate].
       destruct (qs s j2 i2) as [|m rest] eqn:Q2; [discriminate|].
       inv H1. inv H2. simpl. rewrite N12, N21, P1, P2.
       destruct (Nat.eq_dec j2 i1) as [->|Hj]; [destruct (Nat.eq_dec j1 i2) as [->|Hj1]|].
-      + (* same queue i1 -> i2: append at the tail, pop at the head *)
-        rewrite !updq_get, Q2. simpl. fin Hne.
+      + (* same queue i1 -> i2: append at the tail, pop at the head; popping leaves room *)
+        rewrite !updq_get, Q2. simpl. rewrite Q2 in R1. rewrite (room_tl _ _ R1). fin Hne.
       + rewrite (updq_other M (qs s) i1 j1 _ i1 i2) by (apply pair_neq_r; auto). rewrite Q2.
-        rewrite (updq_other M (qs s) i1 i2 _ i1 j1) by (apply pair_neq_r; auto). fin Hne.
+        rewrite (updq_other M (qs s) i1 i2 _ i1 j1) by (apply pair_neq_r; auto). rewrite R1. fin Hne.
       + rewrite (updq_other M (qs s) i1 j1 _ j2 i2) by (apply pair_neq_l; auto). rewrite Q2.
-        rewrite (updq_other M (qs s) j2 i2 _ i1 j1) by (apply pair_neq_l; auto). fin Hne.
+        rewrite (updq_other M (qs s) j2 i2 _ i1 j1) by (apply pair_neq_l; auto). rewrite R1. fin Hne.
     - destruct (qs s j1 i1) as [|m rest] eqn:Q1; [discriminate|].
       inv H1. inv H2. simpl. rewrite N12, N21, P1, P2, Q1. fin Hne.
     - (* recv by i1 from j1, send by i2 to j2 *)
       destruct (qs s j1 i1) as [|m rest] eqn:Q1; [discriminate|].
+      destruct (room M cap (qs s i2 j2)) eqn:R2; [|discriminate].
       inv H1. inv H2. simpl. rewrite N12, N21, P1, P2.
       destruct (Nat.eq_dec j1 i2) as [->|Hj]; [destruct (Nat.eq_dec j2 i1) as [->|Hj2]|].
-      + rewrite !updq_get, Q1. simpl. fin Hne.
+      + rewrite !updq_get, Q1. simpl. rewrite Q1 in R2. rewrite (room_tl _ _ R2). fin Hne.
       + rewrite (updq_other M (qs s) i2 j2 _ i2 i1) by (apply pair_neq_r; auto). rewrite Q1.
-        rewrite (updq_other M (qs s) i2 i1 _ i2 j2) by (apply pair_neq_r; auto). fin Hne.
+        rewrite (updq_other M (qs s) i2 i1 _ i2 j2) by (apply pair_neq_r; auto). rewrite R2. fin Hne.
       + rewrite (updq_other M (qs s) i2 j2 _ j1 i1) by (apply pair_neq_l; auto). rewrite Q1.
-        rewrite (updq_other M (qs s) j1 i1 _ i2 j2) by (apply pair_neq_l; auto). fin Hne.
+        rewrite (updq_other M (qs s) j1 i1 _ i2 j2) by (apply pair_neq_l; auto). rewrite R2. fin Hne.
     - (* recv, recv: different destination, hence different queues *)
       destruct (qs s j1 i1) as [|m1 rest1] eqn:Q1; [discriminate|].
       destruct (qs s j2 i2) as [|m2 rest2] eqn:Q2; [discriminate|].
@@ -171,34 +182,34 @@ Section NetDiamond.
   (* Kahn determinacy: if SOME execution from s terminates in t after n steps, then EVERY execution from s
      has at most n steps, and every execution that cannot be continued has exactly n steps and ends in t *)
   Theorem kahn_unique (s t u : net) n m :
-    gpath net nat (step L M) s n t -> gterminal net nat (step L M) t -> gpath net nat (step L M) s m u ->
-    m <= n /\ (gterminal net nat (step L M) u -> m = n /\ u = t).
+    gpath net nat (step L M cap) s n t -> gterminal net nat (step L M cap) t -> gpath net nat (step L M cap) s m u ->
+    m <= n /\ (gterminal net nat (step L M cap) u -> m = n /\ u = t).
   Proof.
-    apply (unique_terminal net nat (step L M)).
+    apply (unique_terminal net nat (step L M cap)).
     - intros s0 l a b. apply step_det.
     - apply Nat.eq_dec.
     - intros s0 l1 l2 a b Hne. apply net_diamond. exact Hne.
   Qed.
 
   (* the executable scheduler only takes real steps *)
-  Lemma try_order_step (s : net) order t : try_order L M s order = Some t -> exists i, step L M s i t.
+  Lemma try_order_step (s : net) order t : try_order L M cap s order = Some t -> exists i, step L M cap s i t.
   Proof.
     induction order as [|i r IH]; simpl; [discriminate|].
-    destruct (fire L M s i) eqn:E; [intros H; inversion H; subst; exists i; exact E|exact IH].
+    destruct (fire L M cap s i) eqn:E; [intros H; inversion H; subst; exists i; exact E|exact IH].
   Qed.
 
   Lemma run_sched_path fuel order : forall (s : net),
-    gpath net nat (step L M) s (snd (run_sched L M fuel order s)) (fst (run_sched L M fuel order s)).
+    gpath net nat (step L M cap) s (snd (run_sched L M cap fuel order s)) (fst (run_sched L M cap fuel order s)).
   Proof.
     induction fuel as [|k IH]; intros s; simpl; [constructor|].
-    destruct (try_order L M s order) as [t|] eqn:E; [|constructor].
+    destruct (try_order L M cap s order) as [t|] eqn:E; [|constructor].
     destruct (try_order_step s order t E) as [i Hi].
-    specialize (IH t). destruct (run_sched L M k order t) as [u n]. simpl in *.
+    specialize (IH t). destruct (run_sched L M cap k order t) as [u n]. simpl in *.
     econstructor; eauto.
   Qed.
 
   (* a state in which every program is empty is terminal *)
-  Lemma all_done_terminal (s : net) : all_done L M s = true -> gterminal net nat (step L M) s.
+  Lemma all_done_terminal (s : net) : all_done L M s = true -> gterminal net nat (step L M cap) s.
   Proof.
     unfold all_done, gterminal, step, fire. intros H i t.
     destruct (nth_error (procs s) i) as [p|] eqn:E; [|discriminate].
@@ -209,10 +220,10 @@ Section NetDiamond.
   (* instance-level corollary: if the (computed) round-robin run from s finishes all programs, then NO
      interleaving deadlocks and EVERY maximal interleaving ends in that same final state *)
   Theorem scheduler_witness (s : net) fuel order :
-    all_done L M (fst (run_sched L M fuel order s)) = true ->
-    forall m u, gpath net nat (step L M) s m u ->
-      m <= snd (run_sched L M fuel order s) /\
-      (gterminal net nat (step L M) u -> u = fst (run_sched L M fuel order s)).
+    all_done L M (fst (run_sched L M cap fuel order s)) = true ->
+    forall m u, gpath net nat (step L M cap) s m u ->
+      m <= snd (run_sched L M cap fuel order s) /\
+      (gterminal net nat (step L M cap) u -> u = fst (run_sched L M cap fuel order s)).
   Proof.
     intros Hd m u Hp.
     destruct (kahn_unique s _ u _ m (run_sched_path fuel order s) (all_done_terminal _ Hd) Hp) as [Hle Hf].
